@@ -59,7 +59,9 @@ contract(SYN, 'SyntaxParser._match_and', 'C11', types=MATCH_T, rewrites=PAT,
 
 contract(SYN, 'SyntaxParser._match_repeat', 'C11', types=MATCH_T, rewrites=PAT,
 	requires=IN_RANGE + ['is_group(patterns)'], modifies=['self.monitor'], raises={'Exception': None, 'AssertionError': "pat_rep(patterns) == 'off'"}, ensures=ACCOUNT + MONO,
-	loops={0: Loop(invariant=['0 <= steps', 'context.position + steps <= len(tokens)', '0 <= found', 'implies(found == 0, steps == 0)'] + MONO)})
+	# an optional group (`?` and `[..]`) is matched at most once; `+` at least once; a failed repeat consumes nothing
+	exit_asserts=["implies(pat_rep(patterns) == '?' or pat_rep(patterns) == '[]', found <= 1)", "implies(pat_rep(patterns) == '+' and result[0]._steping, found >= 1)", 'implies(found == 0, result[0]._steps == 0)'],
+	loops={0: Loop(invariant=['0 <= steps', 'context.position + steps <= len(tokens)', '0 <= found', 'implies(found == 0, steps == 0)', "implies(pat_rep(patterns) == '?' or pat_rep(patterns) == '[]', found == 0)"] + MONO)})
 
 contract(SYN, 'SyntaxParser._match_symbol', 'C11', types={**T, 'return': 'tuple[Step, Entry]', 'symbol': 'str'},
 	rewrites={**PAT, 'DSN.right(route, 1)': 'dsn_right(route, 1)', 'ASTToken(symbol, token)': 'mk_token(symbol, token)'},
